@@ -34,8 +34,19 @@ for d in sorted(glob.glob(os.path.join(V, "seeded", "C*-*"))):
     rows.append("| %s | %s | %s | %s | %s | %s |" % (mid, meta.get("summary", "")[:160].replace("|", "/").replace("\n", " "),
                 meta.get("needs_to_manifest", "")[:140].replace("|", "/").replace("\n", " "), "yes" if conf else "no" if conf is False else "?",
                 fmt(first) if len(t) > 1 else "", fmt(final)))
+import sys
+lines_out = []
+_print = print
+def print(*a, **k):
+    lines_out.append(" ".join(str(x) for x in a))
 print("| mutant | change | needs to manifest | confirmed | first run (before strengthening) | final |")
 print("|---|---|---|---|---|---|")
 print("\n".join(rows))
 print()
 for i, n in enumerate(notes, 1): print("%d. %s" % (i, n))
+
+_print("\n".join(lines_out))
+if "--design" in sys.argv:
+    dp = os.path.join(V, "DESIGN.md"); ds = open(dp).read()
+    a = ds.index("<!-- SEEDED-TABLE-BEGIN -->") + len("<!-- SEEDED-TABLE-BEGIN -->"); b = ds.index("<!-- SEEDED-TABLE-END -->")
+    open(dp, "w").write(ds[:a] + "\n" + "\n".join(lines_out) + "\n" + ds[b:])
